@@ -18,6 +18,33 @@ Theorem C26_safety : forall p s, modelled p -> reach p s ->
 Proof. exact safety. Qed.
 Print Assumptions C26_safety.
 
+(* every tag: an FFI object is the product of per-tag states (C26/Model.v mstate); each
+   component of a reachable product state is a reachable single-tag state, so all theorems of this
+   file hold for every tag of every reachable state of the whole object *)
+Theorem C26_every_tag : forall p S, mreach p S -> forall tag, reach p (S tag).
+Proof. exact every_tag. Qed.
+Print Assumptions C26_every_tag.
+
+Theorem C26_safety_every_tag : forall p S tag, modelled p -> mreach p S ->
+  (forall t1 t2, in_f (S tag) t1 -> in_f (S tag) t2 -> t1 = t2) /\
+  ndone (S tag) <= 1 /\
+  (forall t r, returned (S tag) t r -> cache (S tag) = Done r) /\
+  (forall r, cache (S tag) = Done r -> forall t, ~ in_f (S tag) t) /\
+  (forall t e, pc (th (S tag) t) = Raised e -> e = FExn /\ own_f_raised (S tag) t) /\
+  (forall t r, returned (S tag) t r -> fraised (th (S tag) t) = false) /\
+  (forall t, pc (th (S tag) t) <> Stuck).
+Proof. exact safety_every_tag. Qed.
+Print Assumptions C26_safety_every_tag.
+
+Theorem C26_no_deadlock_every_tag : forall p S tag t, modelled p -> mreach p S -> unfinished (S tag) t ->
+  enabled p (S tag) t \/ exists t', t' <> t /\ blocked_on p (S tag) t t' /\ enabled p (S tag) t'.
+Proof. exact no_deadlock_every_tag. Qed.
+Print Assumptions C26_no_deadlock_every_tag.
+
+Theorem C26_tags_independent : forall (S : mstate) tag s' tag', tag' <> tag -> mupd S tag s' tag' = S tag'.
+Proof. exact tags_independent. Qed.
+Print Assumptions C26_tags_independent.
+
 (* the cached result is that of the unique normal completion and never changes afterwards *)
 Theorem C26_done_iff_completed : forall p s, modelled p -> reach p s ->
   (ndone s = 1 <-> (exists r, cache s = Done r) \/ exists t, pc (th s t) = At 10).
